@@ -107,6 +107,18 @@ func readRecordHeaderV3(r io.ByteReader) (payloadSizeUncompressed uint64, payloa
 	return payloadSizeUncompressed, payloadSizeCompressed, recordNil == 1, nil
 }
 
+// readHeaderUvarint reads one varint field of a v4 record header. A field that does not decode into 64 bits cannot have
+// been produced by the writer (marker bytes inside a payload followed by 0xff bytes look like that): such a header does
+// not verify, which is reported like a checksum mismatch so that SeekNext carries on scanning.
+func readHeaderUvarint(reader *checksumByteReader) (uint64, error) {
+	start := reader.Count()
+	v, err := binary.ReadUvarint(reader)
+	if err != nil && reader.Count()-start >= binary.MaxVarintLen64 {
+		return 0, fmt.Errorf("%w: %v", HeaderChecksumMismatchErr, err)
+	}
+	return v, err
+}
+
 func readRecordHeaderV4(reader *checksumByteReader) (payloadSizeUncompressed uint64, payloadSizeCompressed uint64, recordNilBool bool, err error) {
 	reader.Reset()
 	magicNumber, err := binary.ReadUvarint(reader)
@@ -122,12 +134,12 @@ func readRecordHeaderV4(reader *checksumByteReader) (payloadSizeUncompressed uin
 		return 0, 0, false, err
 	}
 
-	payloadSizeUncompressed, err = binary.ReadUvarint(reader)
+	payloadSizeUncompressed, err = readHeaderUvarint(reader)
 	if err != nil {
 		return 0, 0, false, err
 	}
 
-	payloadSizeCompressed, err = binary.ReadUvarint(reader)
+	payloadSizeCompressed, err = readHeaderUvarint(reader)
 	if err != nil {
 		return 0, 0, false, err
 	}
@@ -138,7 +150,7 @@ func readRecordHeaderV4(reader *checksumByteReader) (payloadSizeUncompressed uin
 	}
 
 	checksumStart := reader.Count()
-	expectedChecksum, err := binary.ReadUvarint(reader)
+	expectedChecksum, err := readHeaderUvarint(reader)
 	if err != nil {
 		return 0, 0, false, err
 	}
